@@ -3,8 +3,8 @@
 import json, subprocess
 
 BUILT = {
- "C02": ("exploration", "guarded probes at every unchecked VM access (natural and forced-branch runs) + offline all-paths checker over the bytecode the real compiler emitted, validated against instruction traces of the real VM",
-         "Every accepted text (directed corpus, enumerated programs, random programs, token mutants and soups that compile) is run with a probe in front of each unchecked access of the VM, naturally and under forced branch schedules, and its emitted bytecode is checked offline on all control-flow paths (decode, jump targets, function regions, minimum stack height, operand ranges); every traced instruction must lie inside the statically computed height range. Held on the bytecode seen.",
+ "C02": ("exploration", "guarded probes at every unchecked VM access (natural and forced-branch runs) + offline all-paths checker over the bytecode the real compiler emitted, validated against instruction traces of the real VM + control-flow-integrity monitor over every trace (successor relation, shadow call stack)",
+         "Every accepted text (directed corpus, enumerated programs, random programs, token mutants and soups that compile) is run with a probe in front of each unchecked access of the VM, naturally and under forced branch schedules, and its emitted bytecode is checked offline on all control-flow paths (decode, jump targets, function regions, minimum stack height, operand ranges); every traced instruction must lie inside the statically computed height range, and every trace is replayed against the encoding (start at the entry, fetch on an instruction boundary, successor = fall-through / jump target / function entry, returns against a shadow call stack), including programs of more than 64 KiB of code. Held on the bytecode seen.",
          "the offline checker is a monitor over recorded compiler output, not a proof about the compiler; accesses inside Vec/String/bitvec are left to the sanitizer passes", "6.2"),
  "C03": ("exploration", "shadow heap (liveness checked at every dereference, double-release detection) + reachability post-condition at the end of every GC::run + direct driver of the collector against a reachability model + valgrind memcheck on the hook-free binary",
          "Allocating programs (directed heap shapes, heap/calls profile random programs) run under a quarantine shadow heap; at every collection the set reachable from the roots must stay allocated with unchanged content; the collector is also driven directly with all operation sequences up to a bound and random longer ones; the directed corpus runs under valgrind on the un-instrumented binary. Held on the collections observed.",
@@ -24,18 +24,18 @@ BUILT = {
  "C12": ("exploration", "runtime differential monitor (reference model) + frame-discipline monitor over the instruction trace (base pointer, frame count, stack height at Call/Return) + limit cases",
          "Directed call shapes and calls-profile random programs are compared with the reference; from the trace the callee's base pointer must sit exactly at its first argument and the caller's frame count, base pointer and height must be restored after every return; recursion/argument/local/code-size limits must give the exact value or an error. Held on the calls traced.",
          "limit cases use the weaker oracle 'exact value or an error'", "6.12"),
- "C16": ("exploration", "item-by-item agreement of four execution contexts: fresh process per item, shuffled/repeated in one process with failing evaluations in between, 16 threads, debug build",
-         "One batch of generated programs is evaluated in a fresh process each, repeatedly in random orders inside a long-lived process, concurrently from 16 threads with random delays, and by the debug-assertion build; the renderings must agree. Held on the interleavings and histories produced.",
+ "C16": ("exploration", "item-by-item agreement of four execution contexts: fresh process per item, shuffled/repeated in one process with failing evaluations in between, 16 threads, debug build; the batch includes probes at every limit of the interpreter and polluter / probe pairs",
+         "One batch of generated programs (plus programs just below, at and above the nesting, stack, operand-size and integer-range limits, and programs that modify in place whatever builtins and literals hand out) is evaluated in a fresh process each, repeatedly in random orders inside a long-lived process, concurrently from 16 threads with random delays, and by the debug-assertion build; the renderings must agree. Held on the interleavings and histories produced.",
          "only the two Cargo profiles are compared; thread-sanitizer / Miri passes are part of the thorough tier when their builds are available", "6.16"),
- "C17": ("fault_enumeration", "retained Compiler+VM driven like the prompt; reference session model + eval() of the concatenated successful lines + carry-over and shadow-heap monitors; every line cut after every k instructions",
+ "C17": ("fault_enumeration", "retained Compiler+VM driven like the prompt; reference session model + eval() of the concatenated successful lines + carry-over and shadow-heap monitors; every line cut after every k instructions; the same sessions typed into the shipped prompt and compared line by line",
          "All sessions of up to 3 lines over a 14-line alphabet (strided at length 3 in the quick tier), random sessions of 4-12 lines and directed ones; lines fail at parse, compile and run time, and every line of the alphabet sessions is cut after every k instructions, after which following lines probe the state: it must equal a prefix of the line's assignments. Held on the sessions and cuts enumerated.",
          "results handed out by a line are not released by the harness; referring to names declared by a run-time-failed line is unspecified (4.3(16))", "6.17"),
- "C01": ("exploration", "runtime differential monitor: executable reference interpreter (DESIGN §4) evaluated on the tree the real parser returned vs eval() under probes, quarantine shadow heap and instruction budget",
+ "C01": ("exploration", "runtime differential monitor: executable reference interpreter (DESIGN §4) evaluated on the tree the real parser returned (and, for the operator-grouping family, on the harness's own tree) vs eval() under probes, quarantine shadow heap and instruction budget",
          "Every enumerated program up to a node budget and seeded type-directed random programs (6 profiles, injected faults) are executed by the real pipeline and by a definitional tree-walking interpreter; value, captured output and error kind must agree; documented example outputs are checked directly. Held on the programs run; unspecified behaviours (DESIGN 4.3) are skipped and counted.",
          "trusts harness/src/refsem.rs as the definition (cross-checked each run against documented outputs)", "6.1"),
- "C05": ("exploration", "worker-process supervisor as monitor: exit status / signal / stderr of workers, panics caught in-process, instruction budget, wall-clock watchdog with re-run in isolation; release + debug builds and the shipped binary",
+ "C05": ("exploration", "worker-process supervisor as monitor: exit status / signal / stderr of workers, panics caught in-process, instruction budget, hang = no answer while consuming CPU time (wall clock only as watchdog) with re-run in isolation; release + debug builds and the shipped binary under a CPU-time limit",
          "Directed boundary corpus, token soups, token edits, truncation at every char boundary and Unicode noise are evaluated in supervised worker processes; anything but a value, one of the five error kinds or budget exhaustion inside the VM loop is a violation. Held on the inputs tried.",
-         "a hang is decided by a generous watchdog and must repeat in isolation; SIGKILL is inconclusive", "6.5"),
+         "a hang is decided by consumed CPU time and must repeat in isolation; a worker that gets no CPU, SIGKILL and memory exhaustion a program spells out are not verdicts", "6.5"),
  "C07": ("exploration", "runtime round-trip monitor: print tree -> real parser -> compare trees, under random layouts; operator-pair space enumerated completely",
          "All 11 336 binary-operator trees with at most three operators, assignment/op-assignment over all trees with at most two, postfix/prefix against every operator and else-if chains are printed with minimal parentheses and re-parsed by the real parser; random programs under random layouts. Held on the trees printed.",
          "prefix-operator binding strength is undocumented and avoided by the printer", "6.7"),
@@ -52,7 +52,7 @@ BUILT = {
  "C06": ("exploration", "runtime differential monitor: exact big-integer / IEEE / code-point oracle over eval() of a op b; boundary lattice exhaustive, release and debug builds",
          "Every pair of a 355-value boundary lattice x 11 operators x 3 syntactic forms is executed on the real interpreter and compared with an exact oracle (complete enumeration), plus random 61-bit, float and string pairs and the 7x7 cross-type matrix; repeated on the debug-assertion/overflow-check build. Held on what was executed; the 2^122 pairs outside lattice+sample are not covered.",
          "trusts the host's i128 and f64 arithmetic as the oracle", "6.6"),
- "C15": ("exploration", "runtime round-trip assertions on the public Object API (constructors vs accessors, pairwise == over a 200x200 cross product)",
+ "C15": ("exploration", "runtime round-trip assertions on the public Object API (constructors vs accessors, pairwise == over a 200x200 cross product) + literals and == / != read back through whole programs (constant pool, every comparison instruction)",
          "Direct encode/decode round trips on the real Object type: complete int lattice and (offset,count) boundary grid, random ints/floats (incl. NaN payloads)/strings/nested arrays, complete pairwise distinctness over a 200-value sample. Held on the values constructed.",
          "heap constructors are reached through the GC re-export of the verif feature", "6.15"),
 }
